@@ -256,12 +256,13 @@ def run(tier, seed, replay=None):
         toks = ["", "~", "~/", "~/x", "~bob", "~bob/x", "$HOME", "$HOME/x", "/", "/x", ".", "..", "./x", "../x", "a/b", "a", "-f",
                 "http://x/y", "a://b", "x:/y", "://", "/a://b", "~/a://b", "a=b", "./", "x/", "//x", "~x/", "é/x", "a b/c"]
         for t in toks + [rc.rand_text(rng, 6) for _ in range(300 if quick else 3000)]:
-            real = C._classify_token(t)
-            mv = mcall(["classify_token", t])
-            out.case(["cl", t])
-            out.count("classify", real)
-            if mv != real:
-                disagree("Paths.classify <-> config._classify_token", {"token": t}, mv, real)
+            for allow_url in (True, False):
+                real = C._classify_token(t, allow_url=allow_url)
+                mv = mcall(["classify_token", t, allow_url])
+                out.case(["cl", t, allow_url])
+                out.count("classify", real)
+                if mv != real:
+                    disagree("Paths.classify_gen <-> config._classify_token", {"token": t, "allow_url": allow_url}, mv, real)
         segs_pool = ["a", "b", "out", "zz", ".", "..", "", "u:", "x y", "...", "é", "-"]
         base_dirs = [sc.root + "/w/proj/src", sc.root + "/w/nolinks", "/nonexistent", "/", sc.home]
         for _ in range(400 if quick else 5000):
